@@ -11,18 +11,37 @@ FTYPES = {'Boolean': FeatureType.BOOLEAN, 'Integer': FeatureType.INTEGER,
           'Real': FeatureType.REAL, 'String': FeatureType.STRING}
 
 
-def node(tree):
+# marker names of the history driver: the child built for such a shadow feature is replaced by a
+# value that is not a Feature, so that library code walking the tree raises half-way
+ALIENS = {'__ALIEN_STR__': 'alien', '__ALIEN_NONE__': None}
+
+
+def is_poisoned(model):
+    return any((not isinstance(f[0], str)) or f[0] in ALIENS for f in sh.features(model))
+
+
+def node(tree, memo=None):
+    """Shadow tree -> Node objects.  With a memo dict, equal sub-trees become one shared Node object
+    (the expression graph is then a DAG, as flamapy.core's own AST.to_cnf() produces them)."""
     if tree is None:
         return None
+    if memo is not None and tree in memo:
+        return memo[tree]
     if isinstance(tree, tuple):
         op, left, right = tree
-        n = Node(ASTOperation[op], node(left), node(right))
-        return n
-    return Node(tree)
+        n = Node(ASTOperation[op], node(left, memo), node(right, memo))
+    else:
+        n = Node(tree)
+    if memo is not None:
+        memo[tree] = n
+    return n
+
+
+SHARE = {'on': False}     # history driver XD: build constraints with shared sub-expression objects
 
 
 def constraint(name, tree):
-    return Constraint(name, AST(node(tree)))
+    return Constraint(name, AST(node(tree, {} if SHARE['on'] else None)))
 
 
 def _feature(sf):
@@ -62,7 +81,11 @@ def build(model, route='A'):
         f = _feature(sf)
         for (a, b, kids) in sf[1]:
             children = [rec_a(k) for k in kids]
-            f.add_relation(Relation(f, children, a, b))
+            rel = Relation(f, children, a, b)
+            f.add_relation(rel)
+            for i, k in enumerate(kids):
+                if k[0] in ALIENS:
+                    rel.children[i] = ALIENS[k[0]]     # ill-formed on purpose (history driver, vmc.hist)
         _attrs(f, sf)
         return f
 
